@@ -134,7 +134,7 @@ def r12_7(run, model):
             ok = re.fullmatch(r"range_from_span\((self\.inner|lexer|self\.lexer|self)\.span\(\)\)|range", rt) is not None
             run.ob("R12.7", f"{f.qual}|token #{n} range is the match's span", ok, site(LEX, st["sp"]), f"range: {rt[:60]}",
                    witness="an Error token for `日` (3 bytes) gets a 1-byte range: ranges no longer tile the text and a diagnostic ends inside a character")
-    run.floor("token construction sites in the lexer", n, 2)
+    run.floor("token construction sites in the lexer", n, 1)
     g = model.fn("range_from_span", LEX)
     t = S.norm_ws(run.facts.text(LEX, g.body["sp"]))
     both = ("span.start" in t and "span.end" in t) or re.search(r"Range\{start,end\}=span", t) is not None
